@@ -125,11 +125,36 @@ def applyRegion (g : Grid) (m : Region) : Grid :=
 
 def emptyGrid (nrows ncols : Nat) : Grid := List.replicate nrows (List.replicate ncols {})
 
-/-- `parseWorksheet` -/
+/-- `rows*cols` of the budget test in the merge loop of `parseWorksheet`: the cells of region `m`
+clipped to a grid of `nrows` x `ncols` cells.  The Go code computes `endRow = min(EndRow,
+maxRow-1)`, `rows = endRow-StartRow+1` (likewise columns) on `int`s and charges `rows*cols` only
+if `rows > 0 && cols > 0`; with truncated subtraction `rows = min(EndRow+1, maxRow) - StartRow`
+is 0 exactly where the Go value is `<= 0` and equal to it otherwise. -/
+def clipArea (nrows ncols : Nat) (m : Region) : Nat :=
+  (min (m.er + 1) nrows - m.sr) * (min (m.ec + 1) ncols - m.sc)
+
+/-- the merge loop of `parseWorksheet` (`for _, mr := range sheet.MergedRegions`) since the fixes
+"merged regions of a worksheet are applied within a budget of one grid" and "merged regions with
+no cell inside the grid are skipped": the regions are taken in file order; a region whose clipped
+rectangle is empty (`rows <= 0 || cols <= 0`) is skipped (`continue`: no loop runs for it, nothing
+is charged); any other region is charged its `rows*cols` cells against `budget` (initially
+`maxRow*(maxCol+1)`), and the first one that exceeds what is left ends the loop (`break`): it and
+every later region are not applied.  `mark` is the double loop that marks the cells of one region. -/
+def mergeLoop (mark : Grid → Region → Grid) (nrows ncols : Nat) : List Region → Nat → Grid → Grid
+  | [], _, g => g
+  | m :: ms, budget, g =>
+    let rows := min (m.er + 1) nrows - m.sr
+    let cols := min (m.ec + 1) ncols - m.sc
+    if rows = 0 ∨ cols = 0 then mergeLoop mark nrows ncols ms budget g
+    else if rows * cols > budget then g
+    else mergeLoop mark nrows ncols ms (budget - rows * cols) (mark g m)
+
+/-- `parseWorksheet` (one sheet on its own: dimension pass, allocation, placement, merge loop) -/
 def parseWorksheet (shared : List Str) (rows : List RowXML) (merges : List Str) : Grid :=
   let g0 := emptyGrid (maxRowOf rows) (maxColOf rows + 1)
   let g1 := rows.foldl (placeRow shared) g0
-  (merges.filterMap parseRegion).foldl applyRegion g1
+  mergeLoop applyRegion (maxRowOf rows) (maxColOf rows + 1) (merges.filterMap parseRegion)
+    (maxRowOf rows * (maxColOf rows + 1)) g1
 
 def intercalate (sep : Str) : List Str → Str
   | [] => []
